@@ -176,8 +176,11 @@ static void sweep_xor() {
 static void sweep_rs() {
     int counter = 0;
     int maxn = (int)opts().geti("maxn", opts().tier == "thorough" ? 12 : 8);
+    bool only_isa = opts().geti("only_isa", 0) != 0;
+    if (only_isa) maxn += 2;
     for (int be : {ref::B_RS, ref::B_ISA_V, ref::B_ISA_C}) {
         if (ref::is_isa(be) && !isa_available()) continue;
+        if (only_isa && !ref::is_isa(be)) continue;
         int lim = ref::is_isa(be) ? maxn - 2 : maxn;
         for (int k = 1; k < lim; k++) for (int m = 1; k + m <= lim; m++) {
             Config g; g.backend = be; g.k = k; g.m = m; g.hd = m; g.ct = CT_NONE;
